@@ -15,12 +15,14 @@
 package thrift_reflection
 
 import (
+	"bytes"
 	"encoding/hex"
 	"fmt"
 	"math/rand"
 	"reflect"
 	"sync"
 
+	"github.com/cloudwego/thriftgo/generator/golang/extension/meta"
 	"github.com/cloudwego/thriftgo/parser"
 )
 
@@ -171,6 +173,13 @@ func (gd *GlobalDescriptor) checkDuplicateAndRegister(f *FileDescriptor, current
 	newPrevFD.Extra = nil
 	if reflect.DeepEqual(newFD, newPrevFD) {
 		return
+	}
+	// map-typed constant values are keyed by descriptor pointers, which
+	// DeepEqual compares by identity: compare the encodings instead
+	if a, err := meta.Marshal(&newFD); err == nil {
+		if b, err := meta.Marshal(&newPrevFD); err == nil && bytes.Equal(a, b) {
+			return
+		}
 	}
 	panicString := fmt.Sprintf("thrift reflection: file '%s' is already registered\n"+
 		"\tpreviously from: '%s'\n"+
